@@ -125,6 +125,18 @@ func OracleC05(tr *Trace) Verdict {
 			v.Classes = append(v.Classes, "skipped:outside-write-during-term")
 			continue
 		}
+		// a request of a retired election object of the same instance id that was still in flight may land
+		// after its successor started: that record carries the same id but is not this object's record
+		foreign := false
+		for _, op := range tr.Ops {
+			if op.Applied && op.Ver != nil && op.Ver == c.Up.Live && op.Obj != c.Obj {
+				foreign = true
+			}
+		}
+		if foreign {
+			v.Classes = append(v.Classes, "skipped:record-written-by-a-retired-object-of-the-same-id")
+			continue
+		}
 		if c.Up.Live != nil && c.Up.Live.Actor == tr.ID(c.Inst) {
 			if pl := ParsePayload(c.Up.Live.Value); pl != nil && len(pl.Tokens) == 1 && pl.Tokens[0] != c.Token {
 				v.Viols = append(v.Viols, Viol{At: c.FromT, Sig: "C05 token-differs-from-stored-token",
